@@ -74,6 +74,110 @@ pub fn eval64(p: &Prog, vars: &[f64]) -> (f64, f64) {
     (v[p.roots[0]], mag)
 }
 
+fn f32_exact(x: f64) -> bool {
+    x.is_finite() && (x as f32) as f64 == x && (x == 0.0 || x.abs() >= f32::MIN_POSITIVE as f64)
+}
+
+/// Like `eval64`, and also reports whether the value is EXACT: every
+/// intermediate is an f32-representable number (or a NaN that exact operands
+/// force) and only operations whose f32 result is the correctly rounded exact
+/// result were used.  An f32 evaluator then computes exactly the same
+/// intermediates, so the sign / zero-ness / NaN-ness of an exact value is
+/// certain, not merely within a tolerance.
+pub fn eval64x(p: &Prog, vars: &[f64]) -> (f64, f64, bool) {
+    let mut v: Vec<f64> = Vec::with_capacity(p.nodes.len());
+    let mut ex: Vec<bool> = Vec::with_capacity(p.nodes.len());
+    let mut mag = 0.0f64;
+    for op in &p.nodes {
+        let (x, e) = match *op {
+            POp::Var(i) => {
+                let x = vars.get(i).copied().unwrap_or(0.0);
+                (x, f32_exact(x))
+            }
+            POp::Const(c) => (c as f64, c.is_finite()),
+            POp::Un(u, a) => {
+                let x = un64(u, v[a]);
+                let basic = matches!(u, U::Neg | U::Abs | U::Recip | U::Sqrt | U::Square | U::Floor | U::Ceil | U::Not);
+                (x, basic && ex[a] && (f32_exact(x) || x.is_nan()))
+            }
+            POp::Bin(b, a, c) => {
+                let x = bin64(b, v[a], v[c]);
+                let basic = matches!(b, B::Add | B::Sub | B::Mul | B::Div | B::Min | B::Max | B::Compare | B::And | B::Or);
+                (x, basic && ex[a] && ex[c] && (f32_exact(x) || x.is_nan()))
+            }
+        };
+        if x.is_finite() {
+            mag = mag.max(x.abs());
+        }
+        v.push(x);
+        ex.push(e);
+    }
+    (v[p.roots[0]], mag, ex[p.roots[0]])
+}
+
+/// What can be said with certainty about "is the shape negative at this sample?"
+#[derive(Copy, Clone, Debug, PartialEq, Eq)]
+pub enum Side {
+    Inside,
+    /// value certainly >= 0, exactly zero (of either sign), or certainly NaN
+    NotInside,
+    Undecidable,
+}
+
+/// Decides the sample at `pos` (model coordinates, f64).  `pos_exact`: the
+/// caller has established that an f32 computation of the position gives
+/// exactly `pos`.  `dpos`: bound on the position rounding otherwise.
+pub fn side_of(p: &Prog, pos: [f64; 3], free: f64, pos_exact: bool, dpos: f64) -> (Side, f64) {
+    let at = |q: [f64; 3]| eval64x(p, &[q[0], q[1], q[2], 0.0, 0.0, free]);
+    let (v, mag, exact) = at(pos);
+    if exact && pos_exact {
+        return (if v < 0.0 { Side::Inside } else { Side::NotInside }, v);
+    }
+    if v.is_nan() {
+        // NaN is "not negative"; it is certain when the whole neighbourhood is NaN
+        for ax in 0..3 {
+            for sgn in [-1.0, 1.0] {
+                let mut q = pos;
+                q[ax] += sgn * dpos;
+                if !at(q).0.is_nan() {
+                    return (Side::Undecidable, v);
+                }
+            }
+        }
+        return (Side::NotInside, v);
+    }
+    let tol = 2e-5 * (1.0 + mag);
+    if v.abs() <= tol {
+        (Side::Undecidable, v)
+    } else if v < 0.0 {
+        (Side::Inside, v)
+    } else {
+        (Side::NotInside, v)
+    }
+}
+
+/// True if an f32 evaluation of `m * (i, j, k, 1)` followed by the perspective
+/// divide is exact whatever the order of the additions: every product and
+/// every partial sum is f32-representable
+pub fn position_exact(m: &nalgebra::Matrix4<f64>, ijk: [f64; 3]) -> bool {
+    let v = [ijk[0], ijk[1], ijk[2], 1.0];
+    let mut rows = [0.0f64; 4];
+    for r in 0..4 {
+        let terms: Vec<f64> = (0..4).map(|c| m[(r, c)] * v[c]).collect();
+        for mask in 1u32..16 {
+            let s: f64 = (0..4).filter(|c| (mask >> c) & 1 == 1).map(|c| terms[c]).sum();
+            if !f32_exact(s) {
+                return false;
+            }
+        }
+        rows[r] = terms.iter().sum();
+    }
+    if rows[3] == 1.0 {
+        return true;
+    }
+    (0..3).all(|r| f32_exact(rows[r] / rows[3]))
+}
+
 /// Tiny expression builder over `Prog`
 #[derive(Default)]
 pub struct PB {
@@ -259,6 +363,18 @@ pub fn scenes_2d() -> Vec<Scene> {
         let q = b.un(U::Sqrt, x);
         b.subc(q, 0.5)
     }));
+    v.push(mk("complement of the half-plane x > 1/8: -(0.125 - x)", &|b| {
+        let x = b.x();
+        let k = b.c(0.125);
+        let d = b.sub(k, x);
+        b.neg(d)
+    }));
+    v.push(mk("rectangle minus a strip cut on sample lines", &|b| {
+        let bx = b.boxx([-0.75, -0.75, 0.0], [0.75, 0.75, 0.0], 2);
+        let cut = b.slab(1, -0.25, 0.25);
+        let n = b.neg(cut);
+        b.max(bx, n)
+    }));
     let mut s = mk("circle with free radius", &|b| {
         let (x, y) = (b.x(), b.y());
         let a = b.un(U::Square, x);
@@ -333,6 +449,26 @@ pub fn scenes_3d() -> Vec<Scene> {
         let sum = b.add(m1, m2);
         let one = b.c(1.0);
         b.sub(one, sum)
+    }));
+    // shapes whose value at voxel samples is EXACTLY zero of negative sign (the
+    // negation of an exact zero) or a certain NaN: neither is "negative"
+    v.push(mk("complement of the half-space z > 1/8: -(0.125 - z)", &|b| {
+        let z = b.z();
+        let k = b.c(0.125);
+        let d = b.sub(k, z);
+        b.neg(d)
+    }));
+    v.push(mk("box minus a slab cut on the sample planes", &|b| {
+        let bx = b.boxx([-0.75, -0.75, -0.75], [0.75, 0.75, 0.75], 3);
+        let cut = b.slab(2, -0.25, 0.25);
+        let n = b.neg(cut);
+        b.max(bx, n)
+    }));
+    v.push(mk("sqrt(x) + z - 0.5 (NaN for x < 0)", &|b| {
+        let (x, z) = (b.x(), b.z());
+        let q = b.un(U::Sqrt, x);
+        let s = b.add(q, z);
+        b.subc(s, 0.5)
     }));
     let mut s = mk("sphere with free radius", &|b| {
         let (x, y, z) = (b.x(), b.y(), b.z());
